@@ -204,3 +204,67 @@ Print Assumptions C06_cylseg_BH.
 Print Assumptions C06_cylseg_JM.
 Print Assumptions C06_cylseg_J_refuted.
 Print Assumptions C06_cylseg_M_refuted.
+
+(* ------------------------------------------------------------------ translated data-flow arithmetic
+   (Gen/GenL2Arith.v is regenerated from field_wrap_BH.py on every run) *)
+From MV Require Import Model.L2Arith Gen.GenL2Arith Proofs.L2ArithProofs.
+Open Scope string_scope.
+
+(* every index / shape / tiling / axis / slice expression of get_src_dict, tile_group_property,
+   getBH_level1 and _getBH_level2 is the reviewed one *)
+Theorem C06_model_uses_translated_arith : arith = expected_arith.
+Proof. exact model_uses_translated_arith. Qed.
+
+(* n_pix = int(n_pp / max_path_len) evaluates to the model's n_pp / M *)
+Theorem C06_n_pix_translated : forall n_pp M : nat,
+  ev (bind "n_pp" (Z.of_nat n_pp) (bind "max_path_len" (Z.of_nat M) env0)) lenv0
+     (get "_getBH_level2" "assign" "n_pix" 0 arith) = (n_pp / M)%nat.
+Proof. exact n_pix_translated. Qed.
+
+(* path tiling: (max_path_len - m0) copies of pose [-1], appended after the original path *)
+Theorem C06_tile_path_translated : forall {A} (d : A) (M : nat) (p : list A),
+  sub_idx (arg 0 (get "_getBH_level2" "assign" "tile_pos" 0 arith)) = PInt (-1) /\
+  arg 1 (get "_getBH_level2" "assign" "tile_pos" 0 arith) = PTuple [PName "m_tile"; PInt 1] /\
+  arg 0 (get "_getBH_level2" "assign" "obj._position" 0 arith)
+    = PTuple [PAttr (PName "obj") "_position"; PName "tile_pos"] /\
+  tile_path d M p
+  = (p ++ repeat (last p d)
+       (ev (bind "max_path_len" (Z.of_nat M) (bind "m0" (Z.of_nat (List.length p)) env0)) lenv0
+           (get "_getBH_level2" "assign" "m_tile" 0 arith)))%list.
+Proof. exact @tile_path_translated. Qed.
+
+(* the collection step of the model uses exactly the translated slice bounds *)
+Theorem C06_reduce_step_translated : forall {O : RigidOps} (P : Type)
+    (ls : list (@leaf O P)) (rest : list (@srcin O P)) (i : nat) (B : list block),
+  let e_sum := get "_getBH_level2" "assign" "B[src_ind]" 0 arith in
+  let e_del := get "_getBH_level2" "assign" "B" 1 arith in
+  let env := bind "src_ind" (Z.of_nat i) (bind "col_len" (Z.of_nat (List.length ls)) env0) in
+  let lo1 := ev env lenv0 (lo_of (sub_idx (arg 0 e_sum))) in
+  let hi1 := ev env lenv0 (hi_of (sub_idx (arg 0 e_sum))) in
+  let lo2 := ev env lenv0 (lo_of (arg 1 e_del)) in
+  let hi2 := ev env lenv0 (hi_of (arg 1 e_del)) in
+  kwarg "axis" e_sum = PInt 0 /\ arg 2 e_del = PInt 0 /\ arg 0 e_del = PName "B" /\
+  reduce_loop P (Coll ls :: rest) i B
+  = reduce_loop P rest (S i)
+      (delete_range lo2 hi2 (set_nth i (sum_blocks (firstn (hi1 - lo1) (skipn lo1 B))) B)).
+Proof. exact @reduce_step_translated. Qed.
+Print Assumptions C06_model_uses_translated_arith.
+Print Assumptions C06_n_pix_translated.
+Print Assumptions C06_tile_path_translated.
+Print Assumptions C06_reduce_step_translated.
+
+(* ------------------------------------------------------------------ the physical instance: V = R^3,
+   G = SO(3) (Lib/RigidR3.v): the element theorem for real positions, real rotations and any
+   row-wise real field function *)
+From MV Require Lib.RigidR3.
+Theorem C06_element_spec_R3 : forall (P : Type) (F : nat -> P -> RigidR3.V3 -> RigidR3.V3)
+    (g_eqb : RigidR3.SO3 -> RigidR3.SO3 -> bool) (flipx : RigidR3.V3 -> RigidR3.V3),
+  (forall a b, g_eqb a b = true -> a = b) ->
+  forall (srcs : list (@srcin RigidR3.R3Ops P)) (sens : list (@sensor RigidR3.R3Ops)) l m k p dsrc dsens,
+  srcs <> [] -> Forall (wf_src (O := RigidR3.R3Ops) P) srcs -> Forall wf_sensor sens -> wf_shapes sens None ->
+  (l < List.length srcs)%nat -> (m < path_len (O := RigidR3.R3Ops) P srcs sens)%nat -> (k < List.length sens)%nat ->
+  (p < List.length (s_pix (nth k sens dsens)))%nat ->
+  nth p (nth k (nth m (nth l (getBH (O := RigidR3.R3Ops) P F g_eqb flipx srcs sens None false) []) []) []) RigidR3.v3zero
+  = spec_elem (O := RigidR3.R3Ops) P F flipx (nth l srcs dsrc) m (nth k sens dsens) (nth p (s_pix (nth k sens dsens)) RigidR3.v3zero).
+Proof. exact (@C06_element_spec RigidR3.R3Ops RigidR3.R3Laws). Qed.
+Print Assumptions C06_element_spec_R3.
